@@ -415,6 +415,11 @@ impl Runner {
             }
             Err(msg) => {
                 println!("replay: property={} sub={name} FAILS: {msg}", self.property);
+                // a listed finding reproduces: say which one, and do not call it a new violation
+                if let Some(e) = ctx.signature.as_deref().and_then(|s| KnownFindings::load().known(&self.property, s).cloned()) {
+                    println!("KNOWN-FINDING: property={} {}", self.property, e.what);
+                    std::process::exit(0);
+                }
                 println!("VIOLATION property={} replay={}", self.property, path);
                 std::process::exit(1);
             }
